@@ -198,7 +198,7 @@ Theorem chain_ok :
 Proof. exact chain_generate_verify. Qed.
 
 (* --- the name decoder's recursion budget (the model's own device) is never the
-   reason for a result: 255 octets of labels and 126 pointers bound the loop *)
+   reason for a result: 255 octets of labels and 127 pointers bound the loop *)
 Theorem name_decoder_total : forall msg off, unpack_name msg off <> OutOfFuel.
 Proof. exact unpack_name_total. Qed.
 
